@@ -14,6 +14,10 @@ MATCHER_FUNCS = [(GM, c) for c in ('Parenthesis', 'SquareBrackets', 'Case', 'If'
 PASS_FUNCS = [('sqlparse.engine.grouping.' + n, 'call sites') for n in (
     'group_identifier', 'group_over', 'group_aliased', 'group_order', 'align_comments', 'group_comments', 'group_values',
     'group_functions', 'group_where')]
+JOINER_FUNCS = [('sqlparse.engine.grouping._group', 'generic closures')] + [
+    ('sqlparse.engine.grouping.' + n, 'closures') for n in (
+        'group_typecasts', 'group_tzcasts', 'group_typed_literal', 'group_period', 'group_as', 'group_assignment',
+        'group_comparison', 'group_arrays', 'group_operator', 'group_identifier_list')]
 NAV_FUNCS = [('sqlparse.sql.TokenList._token_matching', 'forward, end=None'),
              ('sqlparse.sql.TokenList._token_matching', 'reverse'),
              ('sqlparse.sql.TokenList.token_next', 'forward'), ('sqlparse.sql.TokenList.token_next', 'reverse (token_prev)'),
